@@ -589,6 +589,35 @@ func derives(v ssa.Value, src func(ssa.Value) bool, o *flowOpts, seen map[ssa.Va
 			}
 		}
 		return rec(x.X)
+	case *ssa.Alloc:
+		// a local (struct) variable: every value stored into it (whole or by field)
+		n, okc := 0, 0
+		var scan func(addr ssa.Value)
+		scan = func(addr ssa.Value) {
+			for _, r := range *addr.Referrers() {
+				switch y := r.(type) {
+				case *ssa.Store:
+					if y.Addr == addr {
+						n++
+						if rec(y.Val) {
+							okc++
+						}
+					}
+				case *ssa.FieldAddr:
+					if y.X == addr {
+						scan(y)
+					}
+				}
+			}
+		}
+		scan(x)
+		if n == 0 {
+			return false
+		}
+		if all {
+			return okc == n
+		}
+		return okc > 0
 	case *ssa.Phi:
 		okc := 0
 		for _, e := range x.Edges {
